@@ -49,8 +49,8 @@ func HarnessC12a() {
 
 	k, v := verifNondetKey("k"), verifNondetVal("v")
 	var opsel []int // OPMASK: which of the 7 operations are tried (default all)
-	for o := 0; o < 9; o++ {
-		if verifBoundOr("OPMASK", 511)&(1<<uint(o)) != 0 {
+	for o := 0; o < 11; o++ {
+		if verifBoundOr("OPMASK", 2047)&(1<<uint(o)) != 0 {
 			opsel = append(opsel, o)
 		}
 	}
@@ -71,8 +71,31 @@ func HarnessC12a() {
 			return
 		}
 	}
+	// operations 9/10: a cursor placed on an entry by a fault-free Ceil(k), then one Forward / Backward under fault,
+	// retried on the same cursor: the retried step ends on the successor / predecessor of the entry it started from
+	var navKey uint64
+	navOn := false
+	if op == 9 || op == 10 {
+		navCur, err = t.Cursor(vctx)
+		verifAssert("C01.cursor.err", err == nil)
+		if err != nil {
+			return
+		}
+		err = navCur.Ceil(vctx, symKey{k})
+		verifAssert("C01.ceil.err", err == nil)
+		if err != nil {
+			return
+		}
+		if ck, _, ok := navCur.Get(); ok {
+			navKey, navOn = ck.(symKey).id, true
+		}
+	}
 	run := func() (err error) {
 		switch op {
+		case 9:
+			return navCur.Forward(vctx)
+		case 10:
+			return navCur.Backward(vctx)
 		case 7:
 			return navCur.Min(vctx)
 		case 8:
@@ -187,6 +210,29 @@ func HarnessC12a() {
 			verifAssert("C12.retry-result", rerr == nil)
 			if op == 0 {
 				md.put(k, v)
+			}
+			if (op == 9 || op == 10) && rerr == nil && navOn {
+				// where a fault-free step from navKey ends: the next larger / next smaller key, or off the end
+				ksAll, _, kerr := iterAll(t)
+				if kerr == nil {
+					want, wantKey := false, uint64(0)
+					for i, x := range ksAll {
+						if x == navKey {
+							if op == 9 && i+1 < len(ksAll) {
+								want, wantKey = true, ksAll[i+1]
+							}
+							if op == 10 && i > 0 {
+								want, wantKey = true, ksAll[i-1]
+							}
+						}
+					}
+					ck, _, cok := navCur.Get()
+					at := true
+					if cok && want {
+						at = ck.(symKey).id == wantKey
+					}
+					verifAssert("C12.retried-step-position", verifAnd(cok == want, at))
+				}
 			}
 			if (op == 7 || op == 8) && rerr == nil {
 				// the retried navigation call ends where a fault-free one does: on the smallest / largest entry
